@@ -84,3 +84,19 @@ func retainCheck() string {
 	}
 	return ""
 }
+
+// ---- isolation: a value the library returned belongs to the caller ----
+// (a result that shares memory with a table, a pool or a package variable reads fine, and poisons later calls once the
+// caller writes into it)
+
+// scribbled runs again() after every byte of b has been inverted, restores b and returns what again() produced.
+func scribbled(b []byte, again func() []byte) []byte {
+	for i := range b {
+		b[i] ^= 0xFF
+	}
+	out := append([]byte(nil), again()...) // copied before b is restored: the new result may be b itself
+	for i := range b {
+		b[i] ^= 0xFF
+	}
+	return out
+}
